@@ -414,6 +414,11 @@ def check_pruning(rep, tier, seed):
               "8/3P4/8/5k2/8/3K4/p7/8 b - - 0 1", "8/6KP/8/1k6/8/8/3p4/8 b - - 0 1", "8/P1K5/4k3/8/8/8/4p3/8 w - - 0 1",
               "8/P5k1/8/8/K7/8/6p1/8 b - - 0 1", "8/P7/3K4/1k6/8/8/1p6/8 w - - 0 1", "8/P7/8/2k5/8/8/2p4K/8 w - - 0 1"]:
         cases.append(["new " + f, "obs", "ttnew", "search 4 -1 1", "refroot 1", "refroot 2", "refroot 3", "refroot 4"])
+    # capture searches with more than 32 (and more than 40) tactical moves in one node: several pawns on the seventh rank,
+    # each promotion counting four times (a fixed-size scratch list for the capture search would drop the last ones)
+    for f in ["1n1n1bQr/P1P1P2P/8/7k/8/8/8/7K b - - 0 1", "1n1n1bq1/P1P1P2P/8/7k/8/8/8/K7 w - - 0 1", "n1n1n1n1/1P1P1P1P/8/8/8/8/8/K6k w - - 0 1",
+              "1r1r1r1r/P1P1P1P1/8/8/8/8/8/K6k w - - 0 1", "k6K/8/8/8/8/8/1p1p1p1p/N1N1N1N1 b - - 0 1", "k6K/8/8/8/8/8/p1p1p1p1/1R1R1R1R b - - 0 1"]:
+        cases.append(["new " + f, "obs", "ttnew", "search 1 -1 1", "refroot 1"])
     # sparse pawn endings built around a double push that lands beside an enemy pawn (en passant inside the tree)
     for i in range(40 if tier == "quick" else 1500):
         fl = r.randrange(8)
